@@ -251,8 +251,14 @@ def run(ctx: Any, prog: Program) -> None:
         rets = [r for r in walk_no_nested(rp) if isinstance(r, ast.Return)]
         ctx.check('C18.S3', all(dotted(r.value) == var for r in rets) and bool(rets), fs, rets[0] if rets else rp, 'the value returned must be the normalised path that was checked', func='RawFileSystem._resolve_path', text='returns checked value')
         stores = [n for n in walk_no_nested(rp) if isinstance(n, (ast.Assign, ast.AugAssign, ast.AnnAssign)) and any(isinstance(t, ast.Name) and t.id == var and isinstance(t.ctx, ast.Store) for t in ast.walk(n))]
-        ctx.check('C18.S3', len(stores) == 1, fs, stores[-1] if stores else rp, f'`{var}` is assigned {len(stores)} times: the path handed to the OS must be exactly the normalised value the containment test saw '
+        # every value the checked variable can hold when the test runs is a normalised one, and nothing assigns it after the test
+        NORMALISERS = ('os.path.abspath', 'os.path.realpath', 'os.path.normpath')
+        late = [st for st in stores if st.lineno > guards[0].lineno]
+        raw_st = [st for st in stores if st.lineno <= guards[0].lineno and not (isinstance(getattr(st, 'value', None), ast.Call) and dotted(st.value.func) in NORMALISERS)]
+        ctx.check('C18.S3', not late, fs, late[0] if late else rp, f'`{var}` is assigned again after the containment test (`{U(late[0])[:60] if late else ""}`): the path handed to the OS must be exactly the normalised value the test saw '
                   '(a rewrite after the test, e.g. turning backslashes into separators, re-introduces ".." components)', func='RawFileSystem._resolve_path', text='checked value not rewritten')
+        ctx.check('C18.S3', not raw_st, fs, raw_st[0] if raw_st else rp, f'on one path the candidate is `{U(raw_st[0])[:60] if raw_st else ""}`, not a normalised path: the prefix test then runs on the text as given, and a name that starts with the '
+                  'root and climbs out of it with ".." components (`<root>/../secret`) passes', func='RawFileSystem._resolve_path', text='every candidate normalised before the test')
     # memoisation: the answer depends on the root AND on constrain_path (a public attribute).  FileSystem.__eq__/__hash__ look at type and
     # root only, so a cache keyed by (self, name) hands the path an unconstrained instance resolved to every constrained instance of that root.
     memo = [d for d in rp.decorator_list if 'cache' in U(d).lower()]
@@ -314,6 +320,7 @@ def run(ctx: Any, prog: Program) -> None:
 
 
 MUTANTS = [
+    {'id': 'absolute_names_checked_unnormalised', 'file': 'filesys.py', 'find': "        abs_path = os.path.abspath(os.path.join(self.path, path))\n", 'replace': "        if os.path.isabs(path):\n            abs_path = path\n        else:\n            abs_path = os.path.normpath(os.path.join(self.path, path))\n", 'expect': 'C18.S3'},
     {'id': 'chain_mounts_subfolder_as_new_root', 'file': 'filesys.py', 'find': "        if priority:\n            self.systems.insert(0, (sys, prefix))", 'replace': "        if prefix and isinstance(sys, RawFileSystem):\n            sys = RawFileSystem(os.path.join(sys.path, prefix), sys.constrain_path)\n            prefix = ''\n        if priority:\n            self.systems.insert(0, (sys, prefix))", 'expect': 'C18.S4'},
     {'id': 'containment_by_zipped_components', 'file': 'filesys.py', 'find': "        if self.constrain_path and abs_path != self.path and not abs_path.startswith(os.path.join(self.path, '')):\n            raise RootEscapeError(self.path, path)", 'replace': "        if self.constrain_path and any(ours != theirs for ours, theirs in zip(self.path.split(os.sep), abs_path.split(os.sep))):\n            raise RootEscapeError(self.path, path)", 'expect': 'C18.S1'},
     {'id': 'ok_containment_by_component_prefix', 'file': 'filesys.py', 'find': "        if self.constrain_path and abs_path != self.path and not abs_path.startswith(os.path.join(self.path, '')):\n            raise RootEscapeError(self.path, path)", 'replace': "        if self.constrain_path and abs_path.split(os.sep)[:len(self.path.split(os.sep))] != self.path.split(os.sep):\n            raise RootEscapeError(self.path, path)", 'expect': None, 'refuse_ok': True},
